@@ -418,7 +418,9 @@ func c11Build(tier string) *c11Trees {
 func init() {
 	decorations := []struct{ name, s string }{{"space", " "}, {"newline", "\n"}, {"tab", "\t"}, {"block-comment", "/* c */"}, {"line-comment", "// c\n"}, {"nothing", ""},
 		// the text of a comment is not source: brackets, quotes and comment openers inside it mean nothing
-		{"block-comment-brackets", "/* :-) ] { */"}, {"block-comment-open-bracket", "/* ( [ */"}, {"line-comment-brackets", "// (see [1}\n"}, {"block-comment-quote", "/* it's `x */"}, {"block-comment-slashes", "/* // */"}, {"line-comment-crlf", "// c\r\n"}}
+		{"block-comment-brackets", "/* :-) ] { */"}, {"block-comment-open-bracket", "/* ( [ */"}, {"line-comment-brackets", "// (see [1}\n"}, {"block-comment-quote", "/* it's `x */"}, {"block-comment-slashes", "/* // */"}, {"line-comment-crlf", "// c\r\n"},
+		// characters of more than one byte before a token: positions in the source are positions of characters
+		{"block-comment-nonascii", "/* prénoms § 4.1 😀 */"}, {"line-comment-nonascii", "// é€\n"}}
 	// a line comment may also end with the source
 	eofDecorations := []struct{ name, s string }{{"line-comment-at-eof", "// c"}, {"empty-line-comment-at-eof", "//"}, {"line-comment-cr-at-eof", "// c\r"}, {"line-comment-brackets-at-eof", " // )"}}
 	core.Register(&core.Check{
